@@ -212,8 +212,8 @@ Definition VOPS (f : Z -> option Z) (w : world) (t u : nat) : option (world * bo
        | Some (w1, j) => MAP2 f (lfuel w t) w1 t j
        end.
 Definition VMULS (w : world) (t u : nat) (c : Z) := VOPS (fun x => Some (x * c)) w t u.
-(* VDIVS has NO branch for b == 0 (the generic VdivS visits every position then) *)
-Definition VDIVS (y : ty) (w : world) (t u : nat) (c : Z) := VOPS (fun x => sdiv y x c) w t u.
+(* VDIVS is { r.VdivS(a, b); return r } since 5abb77d (it had its own joint loop without the b == 0 branch:
+   F-C09-VDIVS-ZERO, retired) *)
 
 (* --------------------------------------------------------------- EQUALS *)
 (* s1.ptr == nil -> false; s2.ptr == nil -> false; !s1.EQUALS(s2) -> false *)
@@ -335,7 +335,6 @@ Definition step_concrete (y : ty) (sp : bool) (w : w3) (p : vpair) : w3 * (Z * l
     match p with
     | VPopV o r a b => lift w (VOPV o s r a b)
     | VPmulS r a c => lift w (VMULS s r a c)
-    | VPdivS r a c => lift w (VDIVS y s r a c)
     | VPequals a b e2 =>
         match EQUALS e2 s a b with
         | Some (s', Some r) => (sets w s', (K_OK, [b2z r]))
@@ -343,8 +342,8 @@ Definition step_concrete (y : ty) (sp : bool) (w : w3) (p : vpair) : w3 * (Z * l
         | None => (w, (K_FUEL, []))
         end
     | VPset r a => lift w (SETV s r a)
-    (* VADDS, VSUBS, VDIVV: { r.VaddS(a, b); return r } — they call the generic method *)
-    | VPaddS _ _ _ | VPsubS _ _ _ | VPdivV _ _ _ => step3 y w (generic_op true p)
+    (* VADDS, VSUBS, VDIVV, VDIVS: { r.VaddS(a, b); return r } — they call the generic method *)
+    | VPaddS _ _ _ | VPsubS _ _ _ | VPdivV _ _ _ | VPdivS _ _ _ => step3 y w (generic_op true p)
     end
   else
     match p with
